@@ -45,6 +45,37 @@ BATTERY = [
 ]
 
 
+MODEL_LIBS = {"ThreadExecModel": {"threading", "_thread", "queue", "socket", "subprocess", "time", "os"}, "EventletExecModel": {"eventlet"}, "GeventExecModel": {"gevent"}}
+PRIMITIVE_KINDS = {"Lock": ("RLock", "Lock", "Semaphore"), "RLock": ("RLock",), "Event": ("Event",)}
+
+
+def execmodel_coherence(mod):
+    """Static obligations: every primitive a concurrency model hands out (locks, events, queues, sockets, thread start, sleep) comes from that model's own library -
+    a lock of another library does not exclude this model's concurrent senders (a threading.RLock is re-entered by every greenlet of the one native thread)."""
+    out = []
+    for cls, libs in MODEL_LIBS.items():
+        for q, fn in mod.functions.items():
+            if not q.startswith(cls + ".") or q.count(".") != 1:
+                continue
+            meth = q.split(".", 1)[1]
+            if meth.startswith("__"):
+                continue
+            imported = {al.name.split(".")[0] for n in ast.walk(fn) if isinstance(n, ast.Import) for al in n.names} | {(n.module or "").split(".")[0] for n in ast.walk(fn) if isinstance(n, ast.ImportFrom)}
+            rets = [n.value for n in ast.walk(fn) if isinstance(n, ast.Return) and n.value is not None]
+            roots = set()
+            for r in rets + [n.func for n in ast.walk(fn) if isinstance(n, ast.Call)]:
+                base = r.func if isinstance(r, ast.Call) else r
+                while isinstance(base, ast.Attribute):
+                    base = base.value
+                if isinstance(base, ast.Name) and base.id in imported:
+                    roots.add(base.id)
+            out.append((f"static/{cls}.{meth}/primitives-come-from-the-model's-own-library", imported <= libs and roots <= libs, f"imports {sorted(imported)}, uses {sorted(roots)}; allowed {sorted(libs)}"))
+            if meth in PRIMITIVE_KINDS:
+                ok = len(rets) == 1 and isinstance(rets[0], ast.Call) and isinstance(rets[0].func, ast.Attribute) and rets[0].func.attr in PRIMITIVE_KINDS[meth] and not rets[0].args
+                out.append((f"static/{cls}.{meth}/returns-a-new-{meth}", ok, ast.unparse(rets[0]) if rets else "no return"))
+    return out
+
+
 class PROP(Prop):
     id = "C08"
     title = "frame round-trip under any chunking; one write per frame; frames atomic under a send lock"
@@ -53,6 +84,7 @@ class PROP(Prop):
     targets = [
         f"{GB}:Popen2IO.read", f"{GB}:Popen2IO.write", f"{GSOCK}:SocketIO.read", f"{GSOCK}:SocketIO.write",
         f"{GB}:Message.to_io", f"{GB}:Message.from_io", f"{GB}:BaseGateway._send",
+        f"{GB}:Popen2IO.close_write", f"{GB}:Popen2IO.close_read", f"{GSOCK}:SocketIO.close_write", f"{GSOCK}:SocketIO.close_read",
     ]
     assumptions = [
         "OS read/recv returns a non-empty prefix (<= n bytes) of the unread stream, or b'' at end of stream (contracts model:RawIn.read, model:Sock.recv)",
@@ -103,6 +135,10 @@ class PROP(Prop):
                             sites.append(f"{m}:{q}")
             ok = set(sites) <= {f"{GB}:BaseGateway.__init__"}
             out.append((f"static/BaseGateway/{fieldname}-assigned-only-in-__init__", ok, f"assignments: {sorted(set(sites))}"))
+        out.extend(execmodel_coherence(mod))
+        initsrc = ast.unparse(mod.func("BaseGateway.__init__"))
+        out.append(("static/BaseGateway.__init__/send-lock-comes-from-the-execution-model", "self._sendlock = self.execmodel.RLock()" in initsrc or "self._sendlock = self.execmodel.Lock()" in initsrc,
+                    "the send lock must exclude the model's own kind of concurrent sender (threads / greenlets)"))
         # the gateway connection is written only through _send (so the lock obligation on _send covers every writer)
         writers = []
         for m in (GB, "execnet.gateway", "execnet.multi"):
